@@ -16,7 +16,7 @@ from .. import kernel as K
 ID = "C06"
 ENGINE = "detsim"
 LEVEL = "exploration"
-BUDGET = {"quick": 60, "thorough": 900}
+BUDGET = {"quick": 50, "thorough": 900}
 RUN_TIMEOUT = 300
 SHRINK_MAX_S = 45
 SELFTEST_PAIRS = {"quick": 6, "thorough": 16}
